@@ -691,7 +691,7 @@ func shiftsNumbering(steps []Step) bool {
 func TestHistories(t *testing.T) {
 	const test = "Histories"
 	hx.Rule(test, "histories of 5..62 steps over the public API drawn by rapid and replayed on fresh modules: add global/function (named or unnamed, named or unnamed parameters), add block, append, bulk-append (12..45 at once), insert and replace-in-place instructions (add, mul, sub, icmp, alloca, load, store, call of void and non-void functions, select) with operands from the values that exist, remove unused instructions, replace terminators (ret, br, condbr, unreachable), rename values, blocks and globals (to a name or to unnamed), take the address of a block of a fresh function in address space 0 or 1 as the initialiser of a global; observers (String, WriteTo, WriteTo into a writer that fails after k bytes, a recovered String() of a state that cannot be printed — a block whose terminator is taken away and put back —, Func/Block/instruction LLString, Type, Ident, Operands, Succs, Type/Ident/String of a global's initialiser) at about a third of the positions. Every state is printable (blocks are created with a terminator). Oracle: replay with observers == replay without (final String()), String() twice identical, every String() observed mid-history equals printing a fresh observer-free replay of the same prefix, and observers never introduce a panic. Non-trivial = an observer followed by an edit that shifts numbering")
-	hx.Check(t, test, hx.N(1500, 40000), func(rt *rapid.T) {
+	hx.Check(t, test, hx.N(1500, 200000), func(rt *rapid.T) {
 		steps := genHistory(rt)
 		hx.Eval(1)
 		checkHistory(rt, test, steps)
@@ -730,7 +730,7 @@ func TestHistoriesOnParsedModules(t *testing.T) {
 		"@t = global [2 x i8*] [i8* blockaddress(@g, %3), i8* blockaddress(@g, %5)]\ndefine i32 @g(i32) {\n  %2 = add i32 %0, 1\n  br label %3\n3:\n  %4 = mul i32 %2, 2\n  br label %5\n5:\n  ret i32 %4\n}\ndefine i8* @a() {\n  ret i8* blockaddress(@g, %5)\n}\n",
 		"define i32 @g(i32, i32) {\n  %3 = icmp slt i32 %0, %1\n  br i1 %3, label %4, label %6\n4:\n  %5 = add i32 %0, %1\n  br label %6\n6:\n  %7 = phi i32 [ %5, %4 ], [ 0, %2 ]\n  ret i32 %7\n}\ndefine i8* @b() {\n  %1 = select i1 true, i8* blockaddress(@g, %4), i8* blockaddress(@g, %6)\n  ret i8* %1\n}\n",
 	}
-	hx.Check(t, test, hx.N(120, 4000), func(rt *rapid.T) {
+	hx.Check(t, test, hx.N(120, 16000), func(rt *rapid.T) {
 		var base string
 		if rapid.IntRange(0, 4).Draw(rt, "catalogue") == 0 {
 			base = catalogue[rapid.IntRange(0, len(catalogue)-1).Draw(rt, "catbase")]
